@@ -202,7 +202,7 @@ func init() {
 		},
 		Stub:   []string{"network (simnet) with a byte tap on every connection accepted at the server's bind port", "echo / HTTP backend", "users", "scripted peers and a scripted TLS server (crypto/tls, independent of frp's transport code)", "clock"},
 		Real:   append(append([]string{}, commonReal...), "pkg/transport TLS configuration, pkg/util/net TLS dial/listen wrappers, golib crypto + snappy streams"),
-		Rule:   "one run = either (a) real frps + two real frpc (tcp, stcp + visitor, http with credentials) with a drawn configuration (TLS on/off, custom first byte, tcp/websocket, mux, pool, proxy encryption, compression) carrying per-run high-entropy markers as token, secret key, http password, proxy name and payload, after which every byte that crossed the client-server path is searched for the markers (raw and base64); or (b) a policy scenario: a server with forced TLS and/or a trusted CA against scripted peers (plaintext, TLS without / with rogue / with good certificate, all 256 first bytes followed by a plaintext login), or a real frpc with trusted CA + server name against a scripted TLS server with the right identity, a rogue-CA identity or another name; distinct = distinct event-log hash",
+		Rule:   "one run = either (a) real frps + two real frpc (tcp, stcp + visitor, http with credentials) with a drawn configuration (TLS on/off, custom first byte, tcp/websocket, mux, pool, proxy encryption, compression) carrying per-run high-entropy markers as token, secret key, http password, proxy name and payload, after which every byte that crossed the client-server path is searched for the markers (raw and base64); or (b) a policy scenario: a server with forced TLS and/or a trusted CA against scripted peers (plaintext, TLS without / with rogue / with good certificate, all 256 first bytes followed by a plaintext login), or a real frpc with trusted CA + server name against a scripted TLS server with the right identity, a rogue-CA identity or another name; or (c, batch client-plugins) a proxy served by one of the http2http/http2https/https2http/https2https client plugins with drawn encryption/compression/TLS, the path tapped and searched for request and response text; distinct = distinct event-log hash",
 		Assume: []string{"kcp and wss transports are not simulated; quic is (datagram tap on the QUIC port)", "a marker is searched raw and base64-encoded only; other reversible encodings of a secret would not be noticed"},
 	})
 	reg(&propSpec{ID: "C14", Level: "fault_enumeration",
